@@ -191,3 +191,10 @@ func ReadReplay(path string) (Replay, error) {
 	err = json.Unmarshal(b, &r)
 	return r, err
 }
+
+// AddViolation counts a violation.
+func (c *Collector) AddViolation() {
+	c.mu.Lock()
+	c.Violations++
+	c.mu.Unlock()
+}
